@@ -23,6 +23,9 @@ Definition opt_filter {A} (p : A -> bool) (o : option A) : option A :=
 Definition last_error {A} (l : list A) : option A :=
   match rev l with [] => None | x :: _ => Some x end.
 
+(** [u8::try_from(n)] for [n : usize] *)
+Definition u8_try_from (n : N) : option N := if n <=? 255 then Some n else None.
+
 (** [a.div_ceil(d)] *)
 Definition div_ceil (a d : N) : N := if a mod d =? 0 then a / d else a / d + 1.
 
